@@ -80,6 +80,9 @@ type T struct {
 	Ref string `json:"ref,omitempty"` // definition name
 
 	Branches []T `json:"branches,omitempty"` // union of scalars
+	// TypeList: render the union of plain scalars as a list of type names
+	// (`"type": ["integer", "string"]`) instead of anyOf (JSON Schema, OpenAPI)
+	TypeList bool `json:"type_list,omitempty"`
 
 	// union of structs: referenced definitions, each carrying a constant
 	// string field named Discriminator
